@@ -84,12 +84,27 @@ def main():
         if not a.no_tests:
             pkgs = sorted({"./" + os.path.dirname(f) + "/" for f in meta.get("touched_files", []) if f.endswith(".go")})
             ok_all = True
+            stable = set(json.load(open("/root/.vp/BASELINE.json"))["stable_pass"])
+            def stable_failures(p, o):
+                pkg = "github.com/keep-network/keep-core/" + p.strip("./")
+                names = [l.split()[2] for l in o.splitlines() if l.startswith("--- FAIL:") and len(l.split()) > 2]
+                bad = [n for n in names if (pkg + "::" + n) in stable]
+                if not names and ("panic:" in o or "FAIL" in o):   # build failure / crash: no test names
+                    bad = ["<package failed without a named test>"]
+                return bad, names
             for p in pkgs:
-                rc, o = sh("go test -vet=off -count=1 -timeout 40m -skip TestWatchCoordinationWindows " + p, cwd=wt, timeout=3000)
-                if rc != 0:  # loaded machine: timing-sensitive tests flake; retry once
-                    rc, o = sh("go test -vet=off -count=1 -timeout 40m -skip TestWatchCoordinationWindows " + p, cwd=wt, timeout=3000)
-                res["ran"].append("go test -vet=off -count=1 -skip TestWatchCoordinationWindows %s (rc=%d)" % (p, rc))
-                if rc != 0:
+                cmd = "go test -vet=off -count=1 -timeout 40m -skip TestWatchCoordinationWindows " + p
+                bad = names = None
+                for attempt in range(3):  # loaded machine: wall-clock tests flake; retry the package
+                    rc, o = sh(cmd, cwd=wt, timeout=3000)
+                    if rc == 0:
+                        bad, names = [], []
+                        break
+                    bad, names = stable_failures(p, o)
+                    if not bad:
+                        break
+                res["ran"].append("%s (rc=%d; failing tests: %s; of which in the baseline's stable_pass list: %s)" % (cmd, rc, names, bad))
+                if bad:
                     ok_all = False
                     res.setdefault("test_failures", {})[p] = "\n".join(l for l in o.splitlines() if l.startswith(("--- FAIL", "FAIL", "panic")))[-800:]
             res["existing_tests_pass"] = ok_all
